@@ -311,10 +311,10 @@ RunOps(M, F, t, k, i) ==
            IN RunOps(M3, F, t, k, i + 1)
       [] o.o = "exit" ->
            LET cs == M.tk[t].ctxs IN
-           IF cs = <<>> \/ cs[Len(cs)] # o.a THEN RunOps(M, F, t, k, i + 1)     \* already left by a caught exception
-           ELSE LET c == cs[Len(cs)]
+           IF o.a \notin Range(cs) THEN RunOps(M, F, t, k, i + 1)     \* already left by a caught exception
+           ELSE LET c == o.a        \* usually the innermost one; a context object may also be left out of order (__exit__ called by hand)
                     M1 == Ev(M, [e |-> "Exit", a |-> c, t |-> t])
-                    M2 == [M1 EXCEPT !.tk[t].ctxs = SubSeq(cs, 1, Len(cs) - 1)]
+                    M2 == [M1 EXCEPT !.tk[t].ctxs = SelectSeq(cs, LAMBDA x : x # c)]
                     M3 == CtxExitPause(M2, c)
                 IN RunOps(M3, F, t, k, i + 1)
       [] o.o = "read" ->
